@@ -876,6 +876,124 @@ def legacy_cases(rng, tier):
     return cs
 
 
+# ---- power-space elements through the NumPy API (__array__ / __array_wrap__)
+def pspace_cases(rng, tier):
+    import odl
+    cs = C.CaseSet('pspace', ['C17.Arr', 'C17.Model', 'C17.Legacy', 'C17.Corr'], 'check_pspace', 'pcase')
+    reps = 1 if tier == 'quick' else 5
+    names = ['add', 'multiply', 'maximum', 'subtract', 'true_divide', 'less', 'logical_and', 'negative', 'absolute',
+             'square', 'sin', 'isfinite', 'floor']
+    for _ in range(reps):
+        for dtype in ('float64', 'int64', 'float32'):
+            for name in names:
+                uf = getattr(np, name)
+                if name in NONZERO and dtype == 'float32':
+                    continue       # float32 rounding of quotients exceeds the tolerance
+                meths = ['__call__', '__call__', 'out-elem', 'out-arr']
+                if uf.nin == 2 and name not in CMP:
+                    meths += ['reduce', 'reduce-ax', 'reduce-none', 'accumulate', 'outer', 'at', 'reduceat']
+                elif uf.nin == 2:
+                    meths += ['outer', 'at']
+                for mk in meths:
+                    n = rng.randint(1, 3)
+                    s_ = rand_shape(rng, rng.choice([1, 1, 2]))
+                    space = odl.tensor_space(s_, dtype=dtype) ** n
+                    lo = 1 if name in NONZERO else -3
+                    xdata = ivals(rng, (n,) + tuple(s_), lo, 4, dtype=np.dtype(dtype))
+                    x = space.element(xdata.copy())
+                    method = mk if mk in METH else {'out-elem': '__call__', 'out-arr': '__call__', 'reduce-ax': 'reduce',
+                                                   'reduce-none': 'reduce'}[mk]
+                    kw = {}
+                    other = []
+                    other_t = []
+                    self_second = False
+                    idx = None
+                    if method in ('__call__', 'outer', 'at') and uf.nin == 2:
+                        c = rng.choice(['scal', 'arr', 'self', 'arr-first'] if method != 'at' else ['scal'])
+                        if c == 'scal':
+                            v = float(rng.randint(1, 3))
+                            other, other_t = [v], ['(RIScal %s)' % C.q(v)]
+                        elif c == 'self':
+                            other, other_t = [x], [None]
+                        else:
+                            a = ivals(rng, (n,) + tuple(s_), 1, 3)
+                            other, other_t = [a], ['(RIArr %s)' % narr_term(a)]
+                            self_second = (c == 'arr-first')
+                    if mk == 'reduce-ax':
+                        kw['axis'] = rng.randrange(len(s_) + 1)
+                    elif mk == 'reduce-none':
+                        kw['axis'] = None
+                    elif mk == 'accumulate' and rng.random() < 0.5:
+                        kw['axis'] = rng.randrange(len(s_) + 1)
+                    if method in ('at', 'reduceat'):
+                        idx = [rng.randrange(n) for _ in range(rng.randint(1, 3))]
+                    out_elem = (mk == 'out-elem')
+                    if mk == 'out-elem':
+                        kw['out'] = space.element()
+                    f = uf if method == '__call__' else getattr(uf, method)
+                    args = ([x] + other) if not self_second else (other + [x])
+                    if method in ('at', 'reduceat'):
+                        args = [args[0], idx] + args[1:]
+                    raw_args = [np.asarray(a_) if a_ is x else a_ for a_ in args]
+                    try:
+                        # NumPy on the arrays: result dtypes (and values for the oracle ufuncs)
+                        try:
+                            with np.errstate(all='ignore'):
+                                rr = f(*[a_.copy() if isinstance(a_, np.ndarray) else a_ for a_ in raw_args],
+                                       **{k_: v_ for k_, v_ in kw.items() if k_ != 'out'})
+                            if method == 'at':
+                                rr = raw_args[0]
+                            rrs = list(rr) if isinstance(rr, tuple) else [rr]
+                            rdt = [dt_term(np.asarray(t_).dtype) for t_ in rrs]
+                            oracle = '(Ok %s)' % C.lst([narr_term(np.asarray(t_)) for t_ in rrs])
+                        except Skip:
+                            raise
+                        except Exception as e:   # noqa
+                            rdt, oracle = ['DF64'], '(Err %s)' % classify(e)
+                            rrs = None
+                        if mk == 'out-arr':
+                            if rrs is None:
+                                continue
+                            kw['out'] = np.zeros(np.shape(rrs[0]), dtype=np.asarray(rrs[0]).dtype)
+                        try:
+                            with np.errstate(all='ignore'):
+                                r = f(*args, **kw)
+                            rets = list(r) if isinstance(r, tuple) else [r]
+                            obs = []
+                            for o in rets:
+                                if isinstance(o, odl.space.pspace.ProductSpaceElement):
+                                    a_ = o.asarray()
+                                    kind = 1
+                                elif isinstance(o, np.ndarray):
+                                    a_, kind = o, 0
+                                elif o is None:
+                                    raise Skip('None')
+                                else:
+                                    a_, kind = np.asarray(o), 3
+                                obs.append('(mkPW %d %s %s %s)' % (kind, dt_term(a_.dtype), nats(a_.shape),
+                                                                   C.qs(data_list(a_))))
+                            obs_t, summ = '(POk %s)' % C.lst(obs), 'ok'
+                        except Skip:
+                            raise
+                        except Exception as e:   # noqa
+                            obs_t, summ = '(PErr %s)' % classify(e), classify(e)
+                        ufid = '(UB %s)' % BOPS[name] if name in BOPS else ('(UU %s)' % UOPS[name] if name in UOPS
+                                                                           else 'UOracle')
+                        others = [t_ if t_ is not None else '(RIArr %s)' % narr_term(np.asarray(x)) for t_ in other_t]
+                        kwt = '(mkKw %s false None %s%%Z)' % (
+                            'AxAbsent' if 'axis' not in kw else ('AxNone' if kw['axis'] is None
+                                                                 else '(AxInt %d%%Z)' % kw['axis']),
+                            C.zs(idx or []))
+                        t = '(mkPCase %s %s %s %d%%nat %s %s %s %s %s %s %s %s %s %s)' % (
+                            ufid, C.lst(rdt), oracle, n, nats(s_), dt_term(dtype), C.qs(data_list(xdata)),
+                            METH[method], kwt, C.lst(others), C.b(self_second), C.b(out_elem), C.b(mk == 'out-arr'), obs_t)
+                    except Skip:
+                        continue
+                    cs.add(t, {'pspace': name, 'how': mk, 'n': n, 'part_shape': list(s_), 'dtype': dtype,
+                               'outcome': summ}, (name, mk, dtype, summ, n, len(s_)))
+    return cs
+
+
 def correspondence(rng, tier):
     global VARIANTS
     VARIANTS = None
@@ -889,7 +1007,7 @@ def correspondence(rng, tier):
         desc['odl'] = odl_s
         desc['raw'] = raw_s
         cs.add(t, desc, None if 'err' in raw_s else key)
-    return [cs, legacy_cases(rng, tier)]
+    return [cs, legacy_cases(rng, tier), pspace_cases(rng, tier)]
 
 
 # ------------------------------------------------------------------ probes
